@@ -1,5 +1,6 @@
 import Sebuf.Route
 import Sebuf.Lemmas.PropsC03
+import Sebuf.Lemmas.PropsC18
 /-!
 # C03 — all five generators agree on each RPC's verb, path and parameter placement
 
@@ -109,15 +110,34 @@ def placement (g : Generator) (m : MethodIn) : List Str × List Str × Bool :=
 
 def PlacementAgree : Prop := ∀ m g g', placement g m = placement g' m
 
+/-- OpenAPI declares every variable of the full template exactly once: with a base path that holds
+no variable and a method path that repeats none, these are the variables the other generators bind. -/
+theorem openapi_path_vars_eq (m : MethodIn) (hb : '{' ∉ m.base) (hnd : (pathVarsOf m).Nodup) :
+    openapiPathVars m = pathVarsOf m := by
+  unfold openapiPathVars pathVarsOf at *
+  by_cases hc : m.hasConfig = true
+  · have hcp : customPath m = m.path := by simp [customPath, hc]
+    simp only [hc, or_true, if_true] at *
+    rw [hcp, C18.extract_buildHTTPPath m.base m.path hb, C18.uniqueFirst_of_nodup _ hnd]
+  · have hcf : m.hasConfig = false := by simpa using hc
+    have hcp : customPath m = [] := by simp [customPath, hcf]
+    simp only [hcf, Bool.false_eq_true, or_false, if_false]
+    split
+    · rw [hcp, C18.extract_buildHTTPPath m.base [] hb]; rfl
+    · rfl
+
 /-- **C03 (placement), partial**: for bodiless verbs, or when no field is query-annotated, all
-five generators place every field identically. -/
+five generators place every field identically — OpenAPI's declared path parameters being those of
+the whole template, this needs a base path without variables and no repeated variable. -/
 theorem placement_partial (m : MethodIn)
-    (h : isQueryVerb (verbOf m) = true ∨ m.queryNames = []) (g g' : Generator) :
+    (h : isQueryVerb (verbOf m) = true ∨ m.queryNames = []) (hb : '{' ∉ m.base) (hnd : (pathVarsOf m).Nodup)
+    (g g' : Generator) :
     placement g m = placement g' m := by
   have hv := openapi_verb m
+  have hp := openapi_path_vars_eq m hb hnd
   rcases h with h | h
-  · cases g <;> cases g' <;> simp [placement, route, hv, h]
-  · cases g <;> cases g' <;> simp [placement, route, hv, h]
+  · cases g <;> cases g' <;> simp [placement, route, hv, h, hp]
+  · cases g <;> cases g' <;> simp [placement, route, hv, h, hp]
 
 /-- **¬ PlacementAgree** (known finding C03:query_on_body_verb): a POST with a query-annotated
 field is a query parameter for the Go server and OpenAPI but part of the body for the clients. -/
